@@ -80,7 +80,9 @@ Base == <<
    A("F2", L2(Ind1(Ln("F", "", <<3>>)))), A("G2", L2(Ind1(Ln("Step", "given", <<3>>)))) >>
 More == <<
    A("W", Ind1(Ln("Step", "when", <<3>>))), A("N", Ind1(Ln("Step", "then", <<3>>))), A("U", Ind1(Ln("Step", "but", <<3>>))),
-   A("@c", Ind1(Ln("Tags", "cmt", <<3>>))), A("S2", L2(Ind1(Ln("S", "", <<3>>)))) >>
+   A("@c", Ind1(Ln("Tags", "cmt", <<3>>))), A("S2", L2(Ind1(Ln("S", "", <<3>>)))),
+   \* "| a | b | # x": no closing pipe at the end of the line; the last character is dropped, 3 cells
+   A("Tc", Ind1(Ln("Row", "tail", <<3, 4, 5>>))) >>
 AlphaQuick == Base
 AlphaFull  == Base \o More
 =============================================================================
